@@ -1,0 +1,9 @@
+//go:build verif
+
+// Contracts for package message, read by /verif's govc (see /verif/DESIGN.md). Comment-only.
+package message
+
+//@ func decodeRowsMetadata
+//@   prop C04
+//@   ensures nonnil: err == nil ==> metadata != nil
+//@   ensures count: err == nil ==> metadata.ColumnCount >= 0
